@@ -476,9 +476,35 @@ func (e *Engine) applyContract(st *State, fc *contract.Func, f *ssa.Function, si
 	for _, en := range fc.Ensures {
 		st.assume(e.evalBool(env, en.Expr))
 	}
-	if ann != nil {
+	if ann != nil && (len(ann.Assumes) > 0 || len(ann.Sets) > 0) {
+		// $r0, $r1, ..: the results of this call
+		switch r := res.(type) {
+		case TupleV:
+			for i, x := range r {
+				callerEnv.vars[fmt.Sprintf("$r%d", i)] = x
+			}
+		case nil:
+		default:
+			callerEnv.vars["$r0"] = r
+		}
 		for _, a := range ann.Assumes {
 			st.assume(e.evalBool(callerEnv, a.Expr))
+		}
+		if len(ann.Sets) > 0 {
+			top := st.fr
+			for top.parent != nil {
+				top = top.parent
+			}
+			vals := make([]Value, len(ann.Sets))
+			for i, l := range ann.Sets {
+				vals[i] = e.eval(callerEnv, l.Expr)
+			}
+			for i, l := range ann.Sets {
+				if _, ok := top.ghost[l.Name]; !ok {
+					panic(unsupported("set of undeclared ghost variable " + l.Name))
+				}
+				top.ghost[l.Name] = vals[i]
+			}
 		}
 	}
 	return res
